@@ -537,7 +537,7 @@ static int corr(uint64_t seed, const std::string& tier, const std::string& outdi
         sink.count(std::string("kw.class.") + k.st + (k.raw ? "raw" : "") + (k.dbl ? "dbl" : "") + (k.alt ? "alt" : ""));
     }
     const std::string sentinel = "OIL";
-    const int nKw = thorough ? 40000 : 4000;
+    const int nKw = thorough ? 60000 : 8000;
     for (int n = 0; n < nKw && !kws.empty(); ++n) {
         const KwS& k = kws[r.below(kws.size())];
         auto schemaAt = [&](size_t i) -> const std::vector<ItemS>& {
@@ -634,6 +634,38 @@ static int corr(uint64_t seed, const std::string& tier, const std::string& outdi
             catch (...) { errors.clear(); ans = "err"; }
         }
         sink.count(ans == "err" ? "kw.parse.err" : "kw.parse.ok");
+        // (v) deck level writer: operator<<(ostream, Deck) against the model's mirror of the
+        // DeckOutput state machine (default_count / row_count survive from record to record and
+        // into a TITLE keyword).
+        if (ans != "err") {
+            std::string text2 = prefix + k.name + "\n" + text;
+            bool withTitle = r.coin(1, 2);
+            if (withTitle) text2 += "TITLE\n  " + randWord(r) + (r.coin() ? " " + randWord(r) + " 3" : "") + "\n";
+            Opm::ParseContext ctx; Opm::ErrorGuard errors;
+            try {
+                auto deck = parser.parseString(text2, ctx, errors);
+                errors.clear();
+                std::ostringstream os;
+                os << deck;
+                std::string arg;
+                for (size_t i = 0; i < deck.size(); ++i) {
+                    const auto& dk = deck[i];
+                    const auto& pk = parser.getParserKeywordFromDeckName(dk.name());
+                    bool st = true;
+                    if (pk.hasFixedSize()) st = false;
+                    const auto& ks = pk.getKeywordSize();
+                    if (ks.size_type() == Opm::OTHER_KEYWORD_IN_DECK && !ks.table_collection()) st = false;
+                    if (ks.size_type() == Opm::UNKNOWN) st = false;
+                    if (i) arg += "~";
+                    arg += hex(dk.name()) + ":" + (dk.isDataKeyword() ? "1" : "0") + ":" + (st ? "1" : "0") + ":";
+                    if (dk.size() == 0) arg += "none";
+                    for (size_t j = 0; j < dk.size(); ++j) { if (j) arg += "|"; arg += dumpRecord(dk.getRecord(j), true); }
+                }
+                sink.emit("deck.wdeck " + arg, hex(os.str()));
+                sink.count(withTitle ? "deck.write.with_title" : "deck.write");
+            } catch (const std::exception&) { errors.clear(); sink.count("deck.write.parse_err"); }
+            catch (...) { errors.clear(); sink.count("deck.write.parse_err"); }
+        }
         sink.emit("deck.kw " + std::string(1, k.st) + " " + (k.raw ? "1" : "0") + " " + k.mn + " " + std::to_string(targetSize) + " " +
                   (k.alt ? "1" : "0") + " " + (k.dbl ? "1" : "0") + " " + k.schemas + " " + names + " " + hex(sentinel) + " " + hex(text), ans);
     }
